@@ -70,6 +70,13 @@ Proof.
 Qed.
 Print Assumptions deps_to_json_unsorted_refuted.
 
+(* build.find_stale_sccs: cached errors of a fresh SCC are replayed in set-iteration order only when at most one
+   module has errors (the bound 1 is one of the generated sorted_sites facts); that is order-free, two would not be *)
+Theorem unordered_replay_of_at_most_one_is_unique :
+  forall (A : Type) (l l' : list A), Permutation l l' -> List.length l <= 1 -> l = l'.
+Proof. exact enum_le1_unique. Qed.
+Print Assumptions unordered_replay_of_at_most_one_is_unique.
+
 (* every modelled choke point is still written the way the model assumes (regenerated syntactic table) *)
 Theorem every_choke_point_still_sorted : forall site b, In (site, b) sorted_sites -> b = true.
 Proof. exact sites_table. Qed.
